@@ -15,7 +15,7 @@ EXTENDS TemplateGrammar, Json, TLC
 CONSTANTS D, MaxPh,
           LitChars,      \* set of cells usable as literal characters
           Specials,      \* subset of {"LB", "RB", "NL", "BS", "BN"}:  {{  }}  newline  '{'+space  '{'+newline
-          Keys,          \* subset of {"k", "zz", "pos", "len", "msg", "prefix", "Zz9"}
+          Keys,          \* subset of {"k", "zz", "pos", "len", "msg", "prefix", "Zz9"} and of the near-miss names in KeyCells
           Colons,        \* subset of {"auto", "always"}: "always" also writes the colon of an empty format spec
           Aligns,        \* subset of {"", "<", "^", ">"}
           Widths,        \* subset of {"", "0", "1", "3", "05", "65535", "65536", "99999999999"}
@@ -29,7 +29,10 @@ vars == <<cells, items, np, nph, done>>
 P == INSTANCE TemplateParser WITH WidthOverflow <- OverflowMode, Backtrack <- BacktrackMode
 
 KeyCells(k) == CASE k = "k" -> <<107>> [] k = "zz" -> <<122, 122>> [] k = "pos" -> K_pos [] k = "len" -> K_len
-                 [] k = "msg" -> K_msg [] k = "wide_msg" -> K_wide_msg [] k = "wide_bar" -> K_wide_bar [] k = "prefix" -> K_prefix [] k = "Zz9" -> <<90, 122, 57>> [] OTHER -> <<113>>
+                 [] k = "msg" -> K_msg [] k = "wide_msg" -> K_wide_msg [] k = "wide_bar" -> K_wide_bar [] k = "prefix" -> K_prefix [] k = "Zz9" -> <<90, 122, 57>>
+                 (* unknown keys that contain a documented key: a prefix, a suffix or another letter case must not make them known *)
+                 [] k = "binary_pos" -> <<98, 105, 110, 97, 114, 121, 95, 112, 111, 115>> [] k = "human_msg" -> <<104, 117, 109, 97, 110, 95, 109, 115, 103>> [] k = "pos_" -> <<112, 111, 115, 95>> [] k = "xmsg" -> <<120, 109, 115, 103>> [] k = "len2" -> <<108, 101, 110, 50>> [] k = "decimal_len" -> <<100, 101, 99, 105, 109, 97, 108, 95, 108, 101, 110>> [] k = "msgs" -> <<109, 115, 103, 115>> [] k = "wide_pos" -> <<119, 105, 100, 101, 95, 112, 111, 115>> [] k = "total_pos" -> <<116, 111, 116, 97, 108, 95, 112, 111, 115>> [] k = "pos_precise" -> <<112, 111, 115, 95, 112, 114, 101, 99, 105, 115, 101>> [] k = "per_sec_pos" -> <<112, 101, 114, 95, 115, 101, 99, 95, 112, 111, 115>> [] k = "Pos" -> <<80, 111, 115>> [] k = "wide_prefix" -> <<119, 105, 100, 101, 95, 112, 114, 101, 102, 105, 120>> [] k = "binary_msg" -> <<98, 105, 110, 97, 114, 121, 95, 109, 115, 103>>
+                 [] OTHER -> <<113>>
 AlignCell(a) == CASE a = "<" -> 60 [] a = "^" -> 94 [] a = ">" -> 62 [] OTHER -> 0
 WidthCells(w) == CASE w = "0" -> <<48>> [] w = "1" -> <<49>> [] w = "3" -> <<51>> [] w = "05" -> <<48, 53>>
                    [] w = "65535" -> <<54, 53, 53, 51, 53>> [] w = "65536" -> <<54, 53, 53, 51, 54>>
